@@ -22,7 +22,7 @@ from . import _c11_ref as R
 ID = "C11"
 LEAN_MODULES = ["NiftyVerif.Core.Proto", "NiftyVerif.Model.Transc", "NiftyVerif.Model.Likelihood",
                 "NiftyVerif.Lemmas.LikelihoodScalar", "NiftyVerif.Lemmas.LikelihoodLists",
-                "NiftyVerif.Props.C11"]
+                "NiftyVerif.Props.C11", "NiftyVerif.Lemmas.LikelihoodComplex", "NiftyVerif.Props.C11Complex"]
 DRIVER = "Driver/C11.lean"
 TRANSLATORS = []
 _T = "NiftyVerif.C11."
@@ -225,6 +225,12 @@ def _oracle(case):
         if o["tjac"] is None:
             return ("likelihood has no transformation", sig(case, "trafo-missing"))
         JJ = o["tjac"].T @ o["tjac"]
+        # the sampling dtype announced with the transformation is never a real one for complex data (None = unknown,
+        # e.g. SandwichOperator inverse covariances, is legitimate; not a sampled quantity)
+        if all(l["k"] == "gauss" and l.get("cplx") for l in G.leaves(case["e"])):
+            dts = list(o["tdtype"].values()) if isinstance(o["tdtype"], dict) else [o["tdtype"]]
+            if any(d not in (None, "complex128") for d in dts):
+                return (f"transformation of a complex Gaussian announces sampling dtype {o['tdtype']}", sig(case, "trafo-dtype"))
         exact = not G.has(case["e"], lambda l: l["k"] == "varcov" and l["full"])
         okP, msg = _close(o["met"], JJ, 1e-8)
         if exact and not okP:
